@@ -265,6 +265,9 @@ pub struct PortSt {
     open: bool,
     buf: Vec<BufChar>,
     cursor: usize,
+    /// which buffer object is installed: `setvbuf` installs a fresh one, and a display that
+    /// fetched the old one stores its characters into an object nobody will flush
+    generation: u64,
     /// string port (call-with-output-string): characters are collected here, not delivered
     capture: Option<String>,
 }
@@ -309,6 +312,8 @@ const PROCEDURES: &[&str] = &[
     "integer->char", "string->number", "string->symbol", "symbol->string", "char?", "number?", "integer?", "boolean?", "procedure?", "even?", "odd?",
     "positive?", "negative?", "logior", "logxor", "ash", "map", "filter", "fold", "reduce", "iota", "last", "list-tail", "list-head", "vector->list",
     "list->vector", "vector-for-each", "values", "identity", "usleep", "sleep", "yield",
+    "sort", "sort!", "stable-sort", "list-sort", "string<?", "string>?", "string<=?", "string>=?", "string-ci<?", "string-ci=?", "char<?", "char>?", "char=?", "delete",
+    "delete-duplicates",
     "pair?", "list?", "symbol?", "cadr", "cddr", "caar", "cdar", "assq", "assv", "assoc", "assq-ref", "assv-ref", "assoc-ref", "memq", "memv",
     "current-thread", "try-mutex", "mutex-locked?", "mutex-owner", "call-with-output-string", "open-output-string", "get-output-string", "vector", "vector-ref", "vector-length", "make-vector",
     "vector-set!", "vector-fill!", "list-ref", "min", "max", "abs", "modulo", "remainder",
@@ -662,11 +667,20 @@ impl Runtime {
                 }
                 Some(cap) => {
                     // read the cursor, then (later) store the characters there and advance it
-                    let cur = self.ports.lock().unwrap()[port].cursor;
+                    let (cur, generation) = {
+                        let ports = self.ports.lock().unwrap();
+                        (ports[port].cursor, ports[port].generation)
+                    };
                     self.point();
                     let full = {
                         let mut ports = self.ports.lock().unwrap();
                         let p = &mut ports[port];
+                        if p.generation != generation {
+                            // the buffer fetched above has been replaced meanwhile: these
+                            // characters go into the old object and are never delivered
+                            start = cut;
+                            continue;
+                        }
                         let n = cut - start;
                         if p.buf.len() < cur + n {
                             p.buf.resize(cur + n, ('\u{0}', NO_FILE, 0, 0));
@@ -763,7 +777,7 @@ impl Runtime {
             return p;
         }
         let mut ports = self.ports.lock().unwrap();
-        ports.push(PortSt { dest: "stdout".to_string(), open: true, buf: vec![], cursor: 0, capture: None });
+        ports.push(PortSt { dest: "stdout".to_string(), open: true, buf: vec![], cursor: 0, generation: 0, capture: None });
         let id = ports.len() - 1;
         drop(ports);
         self.ev(Ev::OpenPort { port: id, dest: "stdout".to_string() });
@@ -1431,7 +1445,28 @@ impl Runtime {
                 }
             }
             "simple-format" => self.builtin("format", args, ctx),
-            "setvbuf" => Ok(Val::Unspec), // buffering is the simulator's decision (A3): a program must be correct under both
+            "setvbuf" => match args.first() {
+                // Whether ports are buffered is the simulator's decision (A3: a program must be
+                // correct under both), so the mode asked for is not honoured. What the call does to
+                // the port is: flush it, then install a fresh buffer object (libguile/ports.c) —
+                // unsynchronised like every other port operation. Characters another thread stores
+                // between the two steps, or into the buffer it had fetched before, are lost.
+                Some(Val::Port(p)) => {
+                    if self.knobs.buffer_cap.is_some() && self.ports.lock().unwrap().get(*p).map(|x| x.capture.is_none()).unwrap_or(false) {
+                        self.flush_port(ctx, *p);
+                        self.point();
+                        let mut ports = self.ports.lock().unwrap();
+                        let port = &mut ports[*p];
+                        port.generation += 1;
+                        port.cursor = 0;
+                        port.buf.clear();
+                    } else {
+                        self.point();
+                    }
+                    Ok(Val::Unspec)
+                }
+                other => runtime(format!("setvbuf: not a port: {other:?}")),
+            },
             "port-closed?" => match args.first() {
                 Some(Val::Port(p)) => Ok(Val::Bool(!self.ports.lock().unwrap().get(*p).map(|x| x.open).unwrap_or(false))),
                 other => runtime(format!("port-closed?: not a port: {other:?}")),
@@ -1655,6 +1690,54 @@ impl Runtime {
                 }
                 _ => runtime(format!("{name}: expected a procedure, an initial value and a list")),
             },
+            "sort" | "sort!" | "stable-sort" | "list-sort" => {
+                // (sort list less) — (list-sort less list)
+                let (list, less) = if name == "list-sort" { (args.get(1), args.first()) } else { (args.first(), args.get(1)) };
+                let (Some(Val::List(l)), Some(less)) = (list, less) else { return runtime(format!("{name}: expected a list and a procedure")) };
+                // insertion sort through the user's predicate (stable; lists here are short)
+                let mut out: Vec<Val> = vec![];
+                for item in l.iter() {
+                    let mut at = out.len();
+                    while at > 0 && truthy(&self.apply(less, vec![item.clone(), out[at - 1].clone()], ctx)?) {
+                        at -= 1;
+                    }
+                    out.insert(at, item.clone());
+                }
+                Ok(Val::List(Arc::new(out)))
+            }
+            "string<?" | "string>?" | "string<=?" | "string>=?" | "string-ci<?" | "string-ci=?" => {
+                let a = as_str(args.first().unwrap_or(&Val::Unspec), name)?;
+                let b = as_str(args.get(1).unwrap_or(&Val::Unspec), name)?;
+                let (a, b) = if name.contains("-ci") { (a.to_lowercase(), b.to_lowercase()) } else { (a.to_string(), b.to_string()) };
+                Ok(Val::Bool(match name {
+                    "string<?" | "string-ci<?" => a < b,
+                    "string>?" => a > b,
+                    "string<=?" => a <= b,
+                    "string>=?" => a >= b,
+                    _ => a == b,
+                }))
+            }
+            "char<?" | "char>?" | "char=?" => match (args.first(), args.get(1)) {
+                (Some(Val::Char(a)), Some(Val::Char(b))) => Ok(Val::Bool(match name {
+                    "char<?" => a < b,
+                    "char>?" => a > b,
+                    _ => a == b,
+                })),
+                _ => runtime(format!("{name}: expected two characters")),
+            },
+            "delete" | "delete-duplicates" => match (args.first(), args.get(1)) {
+                (Some(Val::List(l)), None) if name == "delete-duplicates" => {
+                    let mut out: Vec<Val> = vec![];
+                    for item in l.iter() {
+                        if !out.iter().any(|o| same_key(o, item)) {
+                            out.push(item.clone());
+                        }
+                    }
+                    Ok(Val::List(Arc::new(out)))
+                }
+                (Some(x), Some(Val::List(l))) if name == "delete" => Ok(Val::List(Arc::new(l.iter().filter(|e| !same_key(e, x)).cloned().collect()))),
+                _ => runtime(format!("{name}: unexpected arguments")),
+            },
             "iota" => Ok(Val::List(Arc::new((0..as_int(args.first().unwrap_or(&Val::Int(0)), name)?.clamp(0, 100_000)).map(Val::Int).collect()))),
             "last" | "list-tail" | "list-head" => match args.first() {
                 Some(Val::List(l)) => match name {
@@ -1699,6 +1782,7 @@ impl Runtime {
                 self.yield_point();
                 Ok(Val::Unspec)
             }
+            "current-output-port" => Ok(Val::Port(self.default_port())),
             "current-output-port" | "open-file" => {
                 let dest = if name == "open-file" {
                     format!("file:{}", as_str(args.first().unwrap_or(&Val::Unspec), name)?)
@@ -1706,7 +1790,7 @@ impl Runtime {
                     "stdout".to_string()
                 };
                 let mut ports = self.ports.lock().unwrap();
-                ports.push(PortSt { dest: dest.clone(), open: true, buf: vec![], cursor: 0, capture: None });
+                ports.push(PortSt { dest: dest.clone(), open: true, buf: vec![], cursor: 0, generation: 0, capture: None });
                 let id = ports.len() - 1;
                 drop(ports);
                 self.ev(Ev::OpenPort { port: id, dest });
@@ -2041,7 +2125,7 @@ impl Runtime {
             "open-output-string" => {
                 let mut ports = self.ports.lock().unwrap();
                 let n = ports.len();
-                ports.push(PortSt { dest: format!("string:{n}"), open: true, buf: vec![], cursor: 0, capture: Some(String::new()) });
+                ports.push(PortSt { dest: format!("string:{n}"), open: true, buf: vec![], cursor: 0, generation: 0, capture: Some(String::new()) });
                 Ok(Val::Port(n))
             }
             "get-output-string" => match args.first() {
@@ -2056,7 +2140,7 @@ impl Runtime {
                 let id = {
                     let mut ports = self.ports.lock().unwrap();
                     let n = ports.len();
-                    ports.push(PortSt { dest: format!("string:{n}"), open: true, buf: vec![], cursor: 0, capture: Some(String::new()) });
+                    ports.push(PortSt { dest: format!("string:{n}"), open: true, buf: vec![], cursor: 0, generation: 0, capture: Some(String::new()) });
                     n
                 };
                 self.apply(f, vec![Val::Port(id)], ctx)?;
